@@ -81,7 +81,7 @@ pub fn check_source(src: &str) -> Option<(&'static str, String)> {
     None
 }
 
-const ALPHABET: &[&str] = &["-", "/", "a", " ", "\n", "\"", "#", "(", ")", "'", "\\", "1", "!", "-/", "/-", "--", "\u{a0}", "\r"];
+const ALPHABET: &[&str] = &["-", "/", "a", " ", "\n", "\"", "#", "(", ")", "'", "\\", "1", "!", "-/", "/-", "--", "\u{a0}", "\r", "99999999999999999999999999999999999999999", "1e99999"];
 
 fn enumerate(max_len: usize, f: &mut dyn FnMut(&str) -> bool) -> u64 {
     // all concatenations of up to max_len alphabet pieces, shortest first
@@ -199,6 +199,14 @@ pub fn assumption_a1(_args: &[String]) -> i32 {
                     }
                 }
             }
+        }
+    }
+    if bad.is_none() {
+        // literal tokens of extreme length / magnitude (a token callback that rejects them would make the automaton partial)
+        for s in ["9".repeat(39), "9".repeat(40), "-".to_owned() + &"9".repeat(45), "1".repeat(400), "1e99999".into(), "1.0e-99999".into(), "0.".to_owned() + &"0".repeat(400) + "1",
+                  "\"".to_owned() + &"a".repeat(5000) + "\"", "a".repeat(5000), "--".to_owned() + &"c".repeat(5000)] {
+            n += 1;
+            if Tok::lexer(&s).spanned().any(|(t, _)| t.is_err()) { bad = Some(s); break; }
         }
     }
     match bad {
